@@ -21,6 +21,9 @@ fn main() {
         "C15" => vh::c15::main(mode),
         "C05" => vh::c05::main(mode),
         "C18" => vh::c18::main(mode),
+        "C10" => vh::c10::main(mode),
+        "C03" => vh::c03::main(mode),
+        "C11" => vh::c11::main(mode),
         _ => {
             eprintln!("unknown property {id}");
             2
